@@ -81,16 +81,86 @@ def run_unit(repo, specs, unit, timeout_ms=10000):
         status = 'crash'
         detail = traceback.format_exc()
     gen_s = time.time() - t0
-    results = []
-    for o in eng.obls:
-        r, backend, dt, model, det = solve(o.assumptions, o.goal, timeout_ms, quick=(o.kind == 'canary'))
-        o.result, o.backend, o.time, o.model, o.detail = r, backend, dt, model, det
-        results.append(o)
+    results = solve_all(eng, eng.obls, timeout_ms)
     return eng, status, detail, results, gen_s
+
+
+def solve_all(eng, obls, timeout_ms):
+    """discharge obligations in a forked child that reports one result at a time; the parent kills the child when an
+    obligation produces nothing within its budget (z3 sometimes ignores both its timeout and interrupts) and resumes
+    with a fresh child at the next obligation.  Models of failed obligations are concretised inside the child."""
+    from .concretize import concretize
+    n = len(obls)
+    start = 0
+    ctx = multiprocessing.get_context('fork')
+    budget = timeout_ms * 1.6 / 1000.0 + 25.0
+
+    def child(conn, first):
+        nconc = 0
+        for i in range(first, n):
+            o = obls[i]
+            try:
+                r, backend, dt, model, det = solve(o.assumptions, o.goal, timeout_ms, quick=(o.kind == 'canary'))
+            except Exception as e:
+                r, backend, dt, model, det = 'unknown', 'error', 0.0, None, repr(e)[:200]
+            o.result, o.model = r, model
+            conc = None
+            ins = {}
+            if model is not None:
+                ins = model_inputs(o)
+                if r == 'failed' and o.kind != 'canary' and nconc < 3:
+                    try:
+                        conc = concretize(eng, _G['specs'], _G['repo'], _G['unit'], o)
+                    except Exception:
+                        conc = None
+                    nconc += 1
+            conn.send((i, r, backend, dt, det, ins, conc))
+        conn.close()
+
+    while start < n:
+        parent, ch = ctx.Pipe(duplex=False)
+        pr = ctx.Process(target=child, args=(ch, start))
+        pr.start()
+        ch.close()
+        nxt = start
+        hung = False
+        while nxt < n:
+            if parent.poll(budget):
+                try:
+                    i, r, backend, dt, det, ins, conc = parent.recv()
+                except EOFError:
+                    hung = True
+                    break
+                o = obls[i]
+                o.result, o.backend, o.time, o.detail = r, backend, dt, det
+                o.model = None
+                o.model_inputs = ins
+                o.concrete = conc
+                nxt = i + 1
+            else:
+                hung = True
+                break
+        if hung:
+            pr.terminate()
+            pr.join(5)
+            if nxt < n:
+                o = obls[nxt]
+                o.result, o.backend, o.time, o.detail = 'unknown', 'z3', budget, 'solver did not return within %.0fs (killed)' % budget
+                o.model = None
+                o.model_inputs = {}
+                o.concrete = None
+                nxt += 1
+        else:
+            pr.join(5)
+        parent.close()
+        start = nxt
+    return list(obls)
 
 
 def model_inputs(o):
     ins = {}
+    if getattr(o, 'model_inputs', None):
+        return o.model_inputs
     if o.model is None:
         return ins
     for n, v in o.inputs.items():
@@ -105,15 +175,13 @@ def model_inputs(o):
 def _work(args):
     unit, timeout_ms = args
     repo, specs = _G['repo'], _G['specs']
+    _G['unit'] = unit
     eng, status, detail, results, gen_s = run_unit(repo, specs, unit, timeout_ms)
     obls = []
     from .concretize import concretize
     nconc = 0
     for o in results:
-        conc = None
-        if o.result == 'failed' and o.kind != 'canary' and nconc < 3:
-            conc = concretize(eng, specs, repo, unit, o)
-            nconc += 1
+        conc = getattr(o, 'concrete', None)
         obls.append({'concrete': conc, 'name': o.name, 'kind': o.kind, 'result': o.result, 'backend': o.backend, 'solver_s': round(o.time, 3),
                      'trace': o.trace[-10:], 'model': model_inputs(o), 'detail': o.detail,
                      'goal': str(o.goal)[:400] if o.result != 'proved' else ''})
